@@ -146,19 +146,21 @@ def inst_coding(rec, tier, rnd, w):
 
 
 def plan(tier):
-    ws = range(1, 8) if tier == "quick" else range(1, 11)
+    ws = range(1, 8) if tier == "quick" else range(1, 13)
     out = []
     for w in ws:
-        for k in range(1, 4 if tier == "quick" else 5):
+        for k in range(1, 4 if tier == "quick" else 6):
             out.append(("mpe", w, k))
-            if w <= (7 if tier == "quick" else 8):
+            if w <= (7 if tier == "quick" else 9):
                 out.append(("ring", w, k))
     out += [("mpe", 16, 2), ("mpe", 33, 3), ("ring", 12, 2)]
-    for n in range(1, 8 if tier == "quick" else 12):
+    if tier == "thorough":
+        out += [("mpe", w, k) for w in (14, 17, 24, 31, 32, 48, 64) for k in (1, 3, 5)] + [("ring", w, k) for w in (10, 13, 16, 24, 33) for k in (1, 3)]
+    for n in range(1, 8 if tier == "quick" else 19):
         out.append(("ssn", n, 0))
-    for n in range(1, 5 if tier == "quick" else 7):
+    for n in range(1, 5 if tier == "quick" else 10):
         out.append(("ohmux", n, 0))
-    for w in list(range(1, 10)) + ([16, 33] if tier == "thorough" else [13]):
+    for w in list(range(1, 10)) + (list(range(10, 34)) + [48, 64] if tier == "thorough" else [13]):
         out.append(("coding", w, 0))
     return out
 
@@ -187,4 +189,4 @@ RULE = ("MultiPriorityEncoder (instance and create forms) and RingMultiPriorityE
 ASSUMPTIONS = ["undefined outputs (invalid encoder slots, non-one-hot select without priority, ring encoder with first == last) are not compared"]
 MINIMA = {"quick": {"evaluations": 30000, "instances": 80, "cond:ring_multi_priority_encoder": 20000, "cond:coding": 3000, "cond:one_hot_mux": 500,
                     "cond:stable_selecting_network": 1000, "cond:multi_priority_encoder": 2000},
-          "thorough": {"evaluations": 300000, "instances": 150}}
+          "thorough": {"evaluations": 120000, "instances": 150}}
